@@ -361,6 +361,26 @@ add('SS',
     Rule('X-SS', 'self.$f:i > step_back', 'f_gt(self.$f, step_back)'),
     Rule('X-SS', 'self.$f:i -= step_back;', 'self.$f = fsub(self.$f, step_back);', stmt_start=True))
 
+# X-STREAM (unit stream): the Arc handle of stream.rs
+add('STREAM',
+    Rule('X-STREAM', 'Arc<circular_buffer::Buffer<T>>', 'BufArc<T>'),
+    Rule('X-STREAM', 'circular_buffer::BufferReader', 'BufferReader'),
+    Rule('X-STREAM', 'circular_buffer::BufferWriter', 'BufferWriter'),
+    Rule('X-STREAM', 'Arc::strong_count(&self.circ)', 'self.circ.strong_count()'),
+    Rule('X-STREAM', 'Arc::clone(&self.circ).read_buf()', 'self.circ.clone_read_buf()'),
+    Rule('X-STREAM', 'Arc::clone(&self.circ).write_buf()', 'self.circ.clone_write_buf()'))
+
+# X-IL2P (unit il2p)
+add('IL2P',
+    Rule('X-IL2P', '#[default]', ''),
+    Rule('X-IL2P', 'tags.into_iter().filter(|t| t.key() == "sync").collect()', 'sync_tags(tags)'),
+    Rule('X-IL2P', 'None as Option<Result<Header>>', 'None::<Result<Header>>'),
+    Rule('X-IL2P', 'for $s:i in $w:i.iter().take($n:e) $body:b',
+         '{ let mut __k: usize = 0; while __k < $w.len() && __k < $n { let $s = $w.get_ref(__k); __k += 1; $body } }'),
+    Rule('X-IL2P', 'assert_eq![$a:e, $b:e];', 'if !(($a) == ($b)) { reach_panic(); }', stmt_start=True),
+    Rule('X-IL2P', '&partial[..]', 'as_slice_u8(&partial)'),
+    Rule('X-IL2P', '&header_bytes[..$n:e]', 'prefix_u8(&header_bytes, $n)'))
+
 # X-ZC (unit zc): float expressions of zero_crossing.rs become calls of uninterpreted functions; the optional clock stream
 add('ZC',
     Rule('X-ZC', '($a:e + ($b:e / 2.0)) as u64', 'f2u(fadd($a, fhalf($b)))'),
